@@ -58,6 +58,25 @@ T = {
  "C04-r2m2": ("C04", "storage.rs Clone takes source column slices up to capacity", "clone while len < capacity: Clone::clone runs on dead/uninitialised cells"),
  "C04-r2m3": ("C04", "macros generate/query.rs ecs_iter_destroy! BreakDestroy arm forgets the removed components", "a closure returning BreakDestroy on an entity with Drop components"),
  "C01-r2m3": ("C07", "macros generate/query.rs ecs_iter_destroy! BreakDestroy arm returns without destroying", "any closure returning BreakDestroy"),
+ "R3A-m1": ("C06", "macros generate/query.rs generate_query_iter: `if len == 0 { return; }` ends the whole query", "ecs_iter!/ecs_iter_borrow! matching >= 2 archetypes with an empty one declared before a populated one"),
+ "R3A-m2": ("C02", "storage.rs DataPtr::grow builds old_layout from old_capacity as a byte size", "any growth of an allocated column; natively only over-aligned components lose data (realloc fallback copies too little)"),
+ "R3A-m3": ("C02", "storage.rs Clone copies columns with ptr::read (shallow)", "heap-owning component + clone + in-place write in one world read in the other; double free at drop"),
+ "R3A-m4": ("C06", "storage.rs borrow_slice_N slices to capacity", "direct borrow_slice::<C>() while len < capacity"),
+ "R3B-m1": ("C11", "macros generate/query.rs ecs_iter_borrow! takes the slice guards once per archetype before the loop", "a matched archetype that is empty while a conflicting guard on the same column is alive (borrow taken although no entity is visited)"),
+ "R3B-m2": ("C11", "storage.rs Clone takes each column with borrow_mut()", "clone while a shared borrow of one of its columns is alive: spurious panic"),
+ "R3B-m3": ("C17", "storage.rs created-event push moved from force_create into push", "successful create_within_capacity: not logged"),
+ "R3B-m4": ("C17", "storage.rs force_destroy: destroyed-event push before the (panicking) version computation", "events + default versions + a destroy hitting the 2^32 boundary: the surviving entity is logged as destroyed"),
+ "R3C-m1": ("C08", "storage.rs grow: new free list starts at (slot of last dense entity)+1 instead of len", "fill, destroy a non-last entity, refill, then grow: still-live slots are reset and handed out again"),
+ "R3C-m2": ("C12", "storage.rs with_capacity clamps to 2^24 instead of panicking", "with_capacity(n) for n > 2^24"),
+ "R3C-m3": ("C10", "storage.rs force_destroy: archetype version advanced after the swap-remove again (slot generation still precomputed)", "the removal that overflows the archetype version: panic leaves len one too large"),
+ "R3C-m4": ("C12", "slot.rs populate_free_list: a region of exactly one slot is never written", "with_capacity(1) (or growth from 2^24-1): the create that should use the slot crashes / UB"),
+ "R3D-m1": ("C14", "entity.rs EntityDirectAny::archetype_id() masks with 0x7F (precedence slip)", "a dynamically typed direct handle of an archetype with id >= 128"),
+ "R3D-m2": ("C14", "entity.rs PartialEq for EntityDirect<A> compares the dense index only", "two typed direct handles with equal index and different version"),
+ "R3D-m3": ("C18", "entity.rs From<&Entity<A>> for &EntityAny with an unbounded output lifetime", "client converting &Entity<A> with .into() and keeping the result beyond its borrow"),
+ "R3D-m4": ("C18", "entity.rs EntityDirect marker PhantomData<A> instead of PhantomData<fn() -> A>", "Sync/Send assertion on EntityDirect<A> (a sound program is now rejected)"),
+ "R3E-m2": ("C10", "world-level dynamic destroy drops the row in place, then destroys and forgets", "a component Drop panic (or the overflow panic) inside World::destroy(EntityAny/EntityDirectAny): entity stays registered with dropped components"),
+ "R3E-m3": ("C19", "version.rs wrapping_version arms saturate at u32::MAX", "wrapping_version + crossing the 2^32 boundary: handles reissued, stale handles resolve"),
+ "R3E-m4": ("C19", "entity.rs from_any: panic replaced by debug_assert!", "release build: Entity::<B>::from_any(handle of A) no longer panics"),
 }
 
 
